@@ -4,11 +4,26 @@ md=$1; msg=$2
 python3 - "$md" > /tmp/applyfix.diff <<'PY'
 import sys,re
 s=open(sys.argv[1]).read()
-for b in re.findall(r"```diff\n(.*?)```", s, re.S): sys.stdout.write(b)
+out = []
+for b in re.findall(r"```diff\n(.*?)```", s, re.S):
+    # split into per-file diffs; drop those about backup files (*.orig, *.rej) that a diff tool picked up
+    parts = re.split(r"(?m)^(?=diff --git |--- a/|--- /dev/null|deleted file mode)", b)
+    cur = ""
+    files = []
+    for part in re.split(r"(?m)^(?=diff --git )", b) if "diff --git " in b else re.split(r"(?m)^(?=(?:deleted file mode.*\n)?--- )", b):
+        if not part.strip():
+            continue
+        m = re.search(r"(?m)^--- (?:a/)?(\S+)", part)
+        m2 = re.search(r"(?m)^\+\+\+ (?:b/)?(\S+)", part)
+        name = (m2.group(1) if m2 and m2.group(1) != "/dev/null" else (m.group(1) if m else ""))
+        if name.endswith(".orig") or name.endswith(".rej") or (m and m.group(1).endswith(".orig")):
+            continue
+        out.append(part)
+sys.stdout.write("".join(out))
 PY
 cd /repo || exit 1
 if ! patch -p1 --dry-run < /tmp/applyfix.diff >/dev/null; then echo "PATCH DOES NOT APPLY: $md"; patch -p1 --dry-run < /tmp/applyfix.diff | tail -5; exit 1; fi
-patch -p1 < /tmp/applyfix.diff >/dev/null
+patch -p1 --no-backup-if-mismatch < /tmp/applyfix.diff >/dev/null
 export GOFLAGS=-mod=mod GOPROXY=off
 gofmt -l zygo/*.go | grep -v "blake2.go\|jsonmsgp_test.go\|scopes.go" 
 if ! (cd zygo && go build ./ && go test -vet=off -count=1 ./ 2>&1 | tail -1 | grep -q "^ok"); then echo "TESTS FAIL after $md"; git checkout -- .; exit 1; fi
